@@ -47,6 +47,18 @@ def traced_member(*args):
     return ident, emd.sift._sift_with_noise(*args)
 
 
+def traced_inplace(A, i):
+    """Runs in a pool worker: mutates its (possibly shared) argument in place."""
+    import multiprocessing as mp
+    A += (i + 1)
+    return mp.current_process()._identity[0], A.copy()
+
+
+def inplace_member(A, i):
+    A += (i + 1)
+    return A.copy()
+
+
 def _args_for(case, emd, x):
     X = x[:, None]
     scaling = X.std() * 0.2
@@ -72,7 +84,17 @@ def real_side(cases_json):
         res = p.starmap(traced_member, _args_for(case, emd, x), chunksize=case['chunksize'])
         p.close()
         p.join()
-        out.append({'k': case['k'], 'idents': [r[0] for r in res], 'digests': [_dig(r[1]) for r in res]})
+        rec = {'k': case['k'], 'idents': [r[0] for r in res], 'digests': [_dig(r[1]) for r in res]}
+        # second workload: every job receives the same array object and mutates it in place; what a job sees
+        # depends on which jobs travelled in the same message (chunk) and ran before it in that worker
+        A = np.arange(6, dtype=float)
+        p = mp.get_context('fork').Pool(processes=case['nproc'])
+        res2 = p.starmap(traced_inplace, [(A, i) for i in range(case['nens'] + 3)], chunksize=case['chunksize'])
+        p.close()
+        p.join()
+        rec['idents2'] = [r[0] for r in res2]
+        rec['digests2'] = [_dig(r[1]) for r in res2]
+        out.append(rec)
     print('@@' + json.dumps(out))
 
 
@@ -99,7 +121,14 @@ def sim_side(args):
             p = emd.sift.mp.Pool(processes=case['nproc'])
             res = p.starmap(emd.sift._sift_with_noise, _args_for(case, emd, x), chunksize=case['chunksize'])
             p.close()
-            out.append({'k': case['k'], 'digests': [_dig(r) for r in res], 'assign': w.batches[0]['assign']})
+            order2 = sorted(set(real['idents2']))
+            w.poolcfg = {'start': 'fork', 'durmodel': 'unit', 'force_assign': [order2.index(i) for i in real['idents2']]}
+            A = np.arange(6, dtype=float)
+            p = emd.sift.mp.Pool(processes=case['nproc'])
+            res2 = p.starmap(inplace_member, [(A, i) for i in range(case['nens'] + 3)], chunksize=case['chunksize'])
+            p.close()
+            out.append({'k': case['k'], 'digests': [_dig(r) for r in res], 'assign': w.batches[0]['assign'],
+                        'digests2': [_dig(r) for r in res2]})
         finally:
             seams.end_run(w)
     return out
@@ -126,7 +155,7 @@ def run(nruns, seed, verbose=True):
     bad = 0
     multi = 0
     for case, real, sim in zip(cs, reals, sims):
-        same = real['digests'] == sim['digests']
+        same = real['digests'] == sim['digests'] and real['digests2'] == sim['digests2']
         nworkers = len(set(real['idents']))
         multi += 1 if nworkers > 1 else 0
         if not same:
@@ -140,7 +169,7 @@ def run(nruns, seed, verbose=True):
           '%d showed duplicated member results on the real pool (%.1fs)' % (len(cs), bad, multi, dup, time.time() - t0), flush=True)
     summary = {'traces_validated_against_impl': len(cs) - bad, 'mismatches': bad, 'multi_worker_cases': multi,
                'real_pool_duplicate_cases': dup,
-               'cases': [{'case': c, 'real_job_to_worker': r['idents'], 'identical': r['digests'] == s['digests']}
+               'cases': [{'case': c, 'real_job_to_worker': r['idents'], 'identical': r['digests'] == s['digests'] and r['digests2'] == s['digests2']}
                          for c, r, s in zip(cs, reals, sims)]}
     return (2 if bad else 0), summary
 
